@@ -240,7 +240,7 @@ def main(argv=None) -> int:
     # 2. the batch
     want_samples = 3
     jobs = max(1, args.jobs)
-    chunk = max(1, min(64, n_runs // (jobs * 8) or 1))
+    chunk = max(1, min(getattr(mod, "CHUNK", 64), n_runs // (jobs * 8) or 1))
     chunks = [list(range(i, min(n_runs, i + chunk))) for i in range(0, n_runs, chunk)]
     results: Dict[int, dict] = {}
     harness_errors = []
